@@ -19,6 +19,7 @@ import OciModel.Driver.Auth
 import OciModel.Driver.Iter
 import OciModel.Driver.SrvHandlers
 import OciModel.Driver.Resp
+import OciModel.Driver.ClientWriter
 
 structure DState where
   scopes : OciModel.Driver.Scope.Regs := []
@@ -29,6 +30,7 @@ structure DState where
   authfile : OciModel.Driver.AuthFile.St := {}
   uni : OciModel.Driver.Unify.St := {}
   auth : OciModel.Driver.Auth.St := {}
+  cw : OciModel.Driver.ClientWriter.St := {}
 
 /-- One line in, one line out. The first token names the engine. -/
 def step (st : DState) (line : String) : DState × String :=
@@ -64,6 +66,9 @@ def step (st : DState) (line : String) : DState × String :=
     let (s, out) := OciModel.Driver.WrapRO.drive st.wrap rest
     ({ st with wrap := s }, out)
   | "cl" :: _ => (st, "skip")
+  | "cw" :: rest =>
+    let (c, out) := OciModel.Driver.ClientWriter.drive st.cw rest
+    ({ st with cw := c }, out)
   | "ls" :: rest => (st, OciModel.Driver.Listing.drive rest)
   | "pg" :: rest => (st, OciModel.Driver.Pager.drive rest)
   | "up" :: rest =>
